@@ -264,9 +264,18 @@ class StreamSession:
             return
         _MAX_DRAIN = 10_000
         try:
-            with contextlib.suppress(StopIteration, RpcError, pa.ArrowInvalid, OSError):
+            with contextlib.suppress(StopIteration, pa.ArrowInvalid, OSError):
                 for _ in range(_MAX_DRAIN):
-                    _read_batch_with_log_check(self._output_reader, self._on_log, self._external_config, shm=self._shm)
+                    try:
+                        _read_batch_with_log_check(
+                            self._output_reader, self._on_log, self._external_config, shm=self._shm
+                        )
+                    except RpcError:
+                        # An error batch (e.g. the init error of a stream that
+                        # is closed without ever being ticked) is not the end
+                        # of the stream: its EOS marker still follows.
+                        _drain_stream(self._output_reader)
+                        return
         except Exception:
             with contextlib.suppress(Exception):
                 _drain_stream(self._output_reader)
